@@ -30,7 +30,8 @@ def expm_herm(H, t):
 
 def mode_of(name):
     from pytreenet.time_evolution.time_evolution import TimeEvoMode
-    return {"expm": TimeEvoMode.EXPM, "default": TimeEvoMode.FASTEST}[name]
+    return {"expm": TimeEvoMode.EXPM, "default": TimeEvoMode.FASTEST, "RK45": TimeEvoMode.RK45, "RK23": TimeEvoMode.RK23,
+            "DOP853": TimeEvoMode.DOP853, "BDF": TimeEvoMode.BDF}[name]
 
 
 def make_measure(sysd, ref_shapes=None):
@@ -80,7 +81,7 @@ def structural_oracle(kind, ob, first_expected=True, check_shapes=True):
     return None
 
 
-def conservation_oracle(kind, ob, hscale):
+def conservation_oracle(kind, ob, hscale, TOL=TOL):
     ms = ob["measure"]
     n0 = ms[0]["norm2"]
     e0 = complex(*ms[0]["energy"])
@@ -194,11 +195,27 @@ class C06(Prop):
         ("O", "Layer A (abstract matrix algebra): E^+E = 1, H = H^+ => K = E^+HE Hermitian; a unitary commuting with K preserves <psi|psi> and "
               "<psi|H|psi> of psi = E A (C06_projected_hamiltonian_hermitian, C06_local_update_conserves); contracts: exp(-+iKt) unitary and commuting "
               "with K (expm kernel), E isometry (C03 / LAPACK QR)"),
-        ("I", "per explored instance: schedule checker + duration checker evaluated on the exactly matching model trace"),
-        ("V", "identifiers / parent-child relations / shapes unchanged, canonical at update_path[0] (isometry check), norm and energy drift < 1e-8, "
+        ("F", "store level (Evo/TDVPStore.v: the trace interpreted as the store operations of the classes - read + raw replacement of the site / link "
+              "tensor, split_node_qr(KEEP) with the link identifier, contract_nodes(link, next), move_orthogonalization_center(KEEP)): for EVERY "
+              "well-formed tree store (wfb, >= 2 nodes, any child order compatible with the schedule's tree) whose recorded centre is update_path[0] "
+              "and which is canonical there (iso_check), both steps SUCCEED, keep the store invariant, the node identifiers, every parent pointer, "
+              "every children set and the root (same_tree), end with the recorded centre on update_path[0] and canonical there (every other node a "
+              "QR-Q atom with its bond toward the centre): C06_first_order_step_on_store, C06_second_order_step_on_store, any number of steps "
+              "C06_steps_on_store, with the tree read off the store C06_*_step_own_tree / C06_tree_of_store; one link update C06_link_update_on_store; "
+              "tensor shapes (KEEP mode): every node keeps, toward every neighbour, its dimension and keeps its open-leg dimensions in order "
+              "(C06_first_order_step_keeps_shapes, C06_second_order_step_keeps_shapes: each centre move registers one fresh wire of the dimension "
+              "of the wire it replaces - keep_single_leg_dim - and every other leg keeps its wire)"),
+        ("I", "per explored instance: schedule checker + duration checker evaluated on the exactly matching model trace; store-level tie (c06w): the "
+              "build programme of the initial state is accepted, tree_of = the live tree, tdvp_init / every model step is defined and iso_check holds "
+              "after the constructor and after every step (hypotheses and conclusions of the store-level theorems on this instance)"),
+        ("V", "numerical isometry check of the real tensors (QR kernel contract) and shapes of the real tensors per neighbour (oracle; the model "
+              "reproduces the raw shapes exactly per instance), norm and energy drift < 1e-8, "
               "reversibility of the second-order step as a statement about states, saturated two-node exactness: numerical oracle"),
     ]
-    trusted_base = ["np.linalg.eigh for the reference propagator; einsum for dense states; kron for the dense Hamiltonian",
+    trusted_base = ["store-level tie: harness/props/c06w.py + harness/wmodel.py (snapshot of node dict order, parents, children order, leg permutations, "
+                    "raw shapes, tensor dict order, root, centre compared EXACTLY with tdvp_init / tdvp1_step_t / tdvp2_step_t after the constructor and "
+                    "after up to two steps); the evolved tensors are opaque atoms of the model",
+                    "np.linalg.eigh for the reference propagator; einsum for dense states; kron for the dense Hamiltonian",
                     "expm / Chebyshev kernels of the library are exercised, not modelled (C20)"]
     assumptions = ["Hermitian Hamiltonian for the conservation/reversibility clauses; exponential-based modes (EXPM, default = Chebyshev)",
                    "time step chosen per case as a power of two with ||H|| dt in (1/2, 1] (times dtscale) so that the expm kernels work at nominal accuracy",
